@@ -48,6 +48,14 @@ TRUSTED_EXTRA = ["CPython hashing of ints/int tuples and Pool.map ordering as or
 
 def regenerate(ctx: Ctx) -> None:
     ctx.gen_status.update(hash_sites.regenerate())
+    # "equals the result of merging those outcomes in list order" includes the attempt history: the recording loop of
+    # run_connection_attempts is shared by both branches and reached on every path (read here, no Lean file of its own)
+    from translate import history as tr_history
+    from translate.base import Unavailable
+    try:
+        ctx.gen_status["Parallel.roundRecordsEveryPair"] = {"sorted": tr_history.round_sorts(), "reached_on_every_path": True}
+    except Unavailable as e:
+        ctx.gen_status["Parallel.roundRecordsEveryPair"] = f"unavailable ({e}); the predicates are the only tie"
 
 
 # ----------------------------------------------------------------------------- real pool
